@@ -31,9 +31,11 @@ def harness_corr(outcome, sub, what, tier, seed, extra_args=()):
     return st
 
 
-def msgpack_correspondence(outcome, tier, seed):
+def msgpack_correspondence(outcome, tier, seed, oracle=True):
+    """Model/implementation correspondence of the MessagePack model (size calculator, both document loops with the writer's
+    bytes, detection trial).  oracle=False: the harness's own slice-vs-reader comparison is another property's business."""
     st = harness_corr(outcome, "msgpack", "MessagePack size calculator / document loops / detection trial", tier, seed)
-    for f in st["oracle_failures"]:
+    for f in (st["oracle_failures"] if oracle else []):
         outcome.oracle_failures.append({"what": "MessagePack slice vs reader: " + f.split(": ", 1)[1],
                                         "input_hex": f.split(": ", 1)[0].replace("input ", ""),
                                         "from": "msgpack", "to": "msgpack"})
